@@ -39,11 +39,13 @@ const sockPath = "/var/run/nfd/nfd.sock"
 type Case struct {
 	Name   string `json:"name"`
 	Size   int    `json:"size"`
-	Fill   uint64 `json:"fill"`   // content = bytes of a xorshift sequence started here
-	Writes []int  `json:"writes"` // sizes of the writes into put's stdin, cycled; empty = one write
-	Gap    int    `json:"gap"`    // microseconds between writes
-	Cats   int    `json:"cats"`   // retrievals, one after the other (later ones may be answered from the forwarder's cache)
-	Par    bool   `json:"par"`    // ... or all at once
+	Fill   uint64 `json:"fill"`             // content = bytes of a xorshift sequence started here
+	Writes []int  `json:"writes"`           // sizes of the writes into put's stdin, cycled; empty = one write
+	Gap    int    `json:"gap"`              // microseconds between writes
+	Cats   int    `json:"cats"`             // retrievals, one after the other (later ones may be answered from the forwarder's cache)
+	Par    bool   `json:"par"`              // ... or all at once
+	V2Size int    `json:"v2,omitempty"`     // > 0: afterwards the producer is replaced by one that publishes V2Size other bytes under the same name
+	V2Wait bool   `json:"v2wait,omitempty"` // ... and the last retrieval happens after the discovery packet's freshness period
 }
 
 func content(c Case) []byte {
@@ -104,6 +106,13 @@ func genCase(t *rapid.T) Case {
 	}
 	c.Cats = rapid.IntRange(1, 3).Draw(t, "cats")
 	c.Par = c.Cats > 1 && rapid.Bool().Draw(t, "par")
+	// (drawn from bits: rapid's integer ranges favour their bounds, which would make this
+	// expensive scenario far more frequent than intended)
+	bits := rapid.SliceOfN(rapid.Bool(), 7, 7).Draw(t, "v2bits")
+	if bits[0] && bits[1] && bits[2] && bits[3] { // 1 in 16
+		c.V2Size = rapid.SampledFrom([]int{1, 7999, 8000, 8001, 20000}).Draw(t, "v2size")
+		c.V2Wait = bits[4] && bits[5] // a quarter of those: costs 4.3 s of real time
+	}
 	return c
 }
 
@@ -249,26 +258,23 @@ type outcome struct {
 
 var execCounter int
 
-func runOnce(s *session, c Case, wait time.Duration) (o outcome) {
-	data := content(c)
-	// every execution publishes under a name of its own: the forwarder's cache outlives a case,
-	// and an object of an earlier execution under the same name must not be confused with this one
-	execCounter++
-	c.Name = fmt.Sprintf("/verif-sys/%d-%d%s", os.Getpid(), execCounter, strings.TrimPrefix(c.Name, "/verif-sys"))
-	put := child(s.bin, "put", c.Name)
+// startPut starts `ndnd put <name>`, feeds it data and waits until its prefix is registered.
+// The caller kills the process when done with it.
+func startPut(s *session, name string, data []byte, writes []int, gap int, wait time.Duration) (*exec.Cmd, outcome) {
+	put := child(s.bin, "put", name)
 	stdin, err := put.StdinPipe()
 	if err != nil {
-		return outcome{infra: "pipe: " + err.Error()}
+		return nil, outcome{infra: "pipe: " + err.Error()}
 	}
 	stderr, _ := put.StderrPipe()
 	put.Stdout = io.Discard
 	if err := put.Start(); err != nil {
-		return outcome{infra: "put does not start: " + err.Error()}
+		return nil, outcome{infra: "put does not start: " + err.Error()}
 	}
-	defer func() {
+	kill := func() {
 		put.Process.Kill()
 		put.Wait()
-	}()
+	}
 	lines := make(chan string, 64)
 	go func() {
 		sc := bufio.NewScanner(stderr)
@@ -283,12 +289,12 @@ func runOnce(s *session, c Case, wait time.Duration) (o outcome) {
 	}()
 	go func() {
 		defer stdin.Close()
-		if len(c.Writes) == 0 {
+		if len(writes) == 0 {
 			stdin.Write(data)
 			return
 		}
 		for off, k := 0, 0; off < len(data); k++ {
-			n := c.Writes[k%len(c.Writes)]
+			n := writes[k%len(writes)]
 			if off+n > len(data) {
 				n = len(data) - off
 			}
@@ -296,8 +302,8 @@ func runOnce(s *session, c Case, wait time.Duration) (o outcome) {
 				return
 			}
 			off += n
-			if c.Gap > 0 {
-				time.Sleep(time.Duration(c.Gap) * time.Microsecond)
+			if gap > 0 {
+				time.Sleep(time.Duration(gap) * time.Microsecond)
 			}
 		}
 	}()
@@ -308,10 +314,11 @@ func runOnce(s *session, c Case, wait time.Duration) (o outcome) {
 		select {
 		case l, ok := <-lines:
 			if !ok {
+				kill()
 				if strings.Contains(strings.Join(seen, "\n"), "Unable to produce object") {
-					return outcome{err: fmt.Errorf("ndnd put refused to publish %d bytes under %s: %s", c.Size, c.Name, strings.Join(seen, " | "))}
+					return nil, outcome{err: fmt.Errorf("ndnd put refused to publish %d bytes under %s: %s", len(data), name, strings.Join(seen, " | "))}
 				}
-				return outcome{infra: "put exited before registering its prefix: " + strings.Join(seen, " | ")}
+				return nil, outcome{infra: "put exited before registering its prefix: " + strings.Join(seen, " | ")}
 			}
 			seen = append(seen, l)
 			if strings.Contains(l, "Object produced") {
@@ -321,49 +328,74 @@ func runOnce(s *session, c Case, wait time.Duration) (o outcome) {
 				registered = true
 			}
 		case <-timeout:
-			return outcome{infra: fmt.Sprintf("put not ready within %v (produced=%v)", wait, produced)}
+			kill()
+			return nil, outcome{infra: fmt.Sprintf("put not ready within %v (produced=%v)", wait, produced)}
 		}
 	}
 	go func() { // keep draining
 		for range lines {
 		}
 	}()
+	return put, outcome{}
+}
 
-	cat := func() outcome {
-		cmd := child(s.bin, "cat", c.Name)
-		var out, errb bytes.Buffer
-		cmd.Stdout, cmd.Stderr = &out, &errb
-		if err := cmd.Start(); err != nil {
-			return outcome{infra: "cat does not start: " + err.Error()}
-		}
-		done := make(chan error, 1)
-		go func() { done <- cmd.Wait() }()
-		select {
-		case <-done:
-		case <-time.After(wait + 60*time.Second):
-			cmd.Process.Kill()
-			<-done
-			return outcome{infra: "cat did not finish in time"}
-		}
-		got := out.Bytes()
+// catOnce runs `ndnd cat <name>`; its standard output must be one of the acceptable contents.
+func catOnce(s *session, name string, wait time.Duration, what string, acceptable ...[]byte) outcome {
+	cmd := child(s.bin, "cat", name)
+	var out, errb bytes.Buffer
+	cmd.Stdout, cmd.Stderr = &out, &errb
+	if err := cmd.Start(); err != nil {
+		return outcome{infra: "cat does not start: " + err.Error()}
+	}
+	done := make(chan error, 1)
+	go func() { done <- cmd.Wait() }()
+	select {
+	case <-done:
+	case <-time.After(wait + 60*time.Second):
+		cmd.Process.Kill()
+		<-done
+		return outcome{infra: "cat did not finish in time"}
+	}
+	got := out.Bytes()
+	for _, data := range acceptable {
 		if bytes.Equal(got, data) {
 			return outcome{}
 		}
-		if strings.Contains(errb.String(), "Error fetching object") || len(got) == 0 {
-			return outcome{soft: true, err: fmt.Errorf("ndnd cat %s failed to retrieve the %d bytes that ndnd put published (and keeps serving): got %d bytes; %s", c.Name, len(data), len(got), lastLine(errb.String()))}
-		}
-		i := 0
-		for i < len(got) && i < len(data) && got[i] == data[i] {
-			i++
-		}
-		return outcome{err: fmt.Errorf("ndnd put published %d bytes under %s; ndnd cat wrote %d bytes, first difference at offset %d (segment %d, offset %d in it)", len(data), c.Name, len(got), i, i/8000, i%8000)}
 	}
+	data := acceptable[0]
+	if strings.Contains(errb.String(), "Error fetching object") || len(got) == 0 {
+		return outcome{soft: true, err: fmt.Errorf("ndnd cat %s failed to retrieve the %d bytes that ndnd put published (and keeps serving): got %d bytes; %s", name, len(data), len(got), lastLine(errb.String()))}
+	}
+	i := 0
+	for i < len(got) && i < len(data) && got[i] == data[i] {
+		i++
+	}
+	return outcome{err: fmt.Errorf("ndnd put published %s (%d bytes) under %s; ndnd cat wrote %d bytes, first difference at offset %d (segment %d, offset %d in it)", what, len(data), name, len(got), i, i/8000, i%8000)}
+}
+
+func runOnce(s *session, c Case, wait time.Duration) (o outcome) {
+	data := content(c)
+	// every execution publishes under a name of its own: the forwarder's cache outlives a case,
+	// and an object of an earlier execution under the same name must not be confused with this one
+	execCounter++
+	c.Name = fmt.Sprintf("/verif-sys/%d-%d%s", os.Getpid(), execCounter, strings.TrimPrefix(c.Name, "/verif-sys"))
+	put, o := startPut(s, c.Name, data, c.Writes, c.Gap, wait)
+	if put == nil {
+		return o
+	}
+	killed := false
+	defer func() {
+		if !killed {
+			put.Process.Kill()
+			put.Wait()
+		}
+	}()
 	if c.Par {
 		res := make([]outcome, c.Cats)
 		var wg sync.WaitGroup
 		for i := range res {
 			wg.Add(1)
-			go func(i int) { defer wg.Done(); res[i] = cat() }(i)
+			go func(i int) { defer wg.Done(); res[i] = catOnce(s, c.Name, wait, "content", data) }(i)
 		}
 		wg.Wait()
 		for _, r := range res {
@@ -376,14 +408,39 @@ func runOnce(s *session, c Case, wait time.Duration) (o outcome) {
 				return r
 			}
 		}
-		return outcome{}
-	}
-	for i := 0; i < c.Cats; i++ {
-		if r := cat(); r.err != nil || r.infra != "" {
-			return r
+	} else {
+		for i := 0; i < c.Cats; i++ {
+			if r := catOnce(s, c.Name, wait, "content", data); r.err != nil || r.infra != "" {
+				return r
+			}
 		}
 	}
-	return outcome{}
+	if c.V2Size == 0 {
+		return outcome{}
+	}
+	// a second version: the first producer goes away (its packets stay in the forwarder's
+	// cache), a new producer publishes other content under the same name
+	put.Process.Kill()
+	put.Wait()
+	killed = true
+	data2 := content(Case{Size: c.V2Size, Fill: c.Fill ^ 0x9e3779b97f4a7c15})
+	put2, o := startPut(s, c.Name, data2, nil, 0, wait)
+	if put2 == nil {
+		return o
+	}
+	defer func() {
+		put2.Process.Kill()
+		put2.Wait()
+	}()
+	if c.V2Wait {
+		// past the 4 s freshness period of the cached version-discovery packet: only the new
+		// version may be delivered now
+		time.Sleep(4300 * time.Millisecond)
+		return catOnce(s, c.Name, wait, "a second version, more than the freshness period ago,", data2)
+	}
+	// within the freshness period the cached discovery packet of the first version is still
+	// a legitimate answer: either version, whole
+	return catOnce(s, c.Name, wait, "a second version", data2, data)
 }
 
 func lastLine(s string) string {
@@ -434,6 +491,9 @@ func exec1(c Case) (res evid.Result) {
 	if len(c.Writes) > 0 {
 		res.Classes = append(res.Classes, "stdin-in-several-writes")
 	}
+	if c.V2Size > 0 {
+		res.Classes = append(res.Classes, map[bool]string{true: "second-version:retrieved-after-freshness-period", false: "second-version:retrieved-at-once"}[c.V2Wait])
+	}
 	if c.Cats > 1 {
 		res.Classes = append(res.Classes, map[bool]string{true: "concurrent-retrievals", false: "repeated-retrievals"}[c.Par])
 	}
@@ -448,7 +508,7 @@ func firstWords(s string) string {
 	return strings.Join(f, " ")
 }
 
-const rule = "content of 1..320 000 bytes (thorough: up to ~9.6 MB, i.e. more than 1000 segments), biased to multiples of the 8000-byte segment size and of the tool's 8192-byte read buffer +-2, piped into `ndnd put <name>` in generated write sizes (1..100 000, cycled, optional pauses), retrieved by 1..3 `ndnd cat <name>` processes (sequentially or concurrently) through a real `ndnd fw run` forwarder process built from the tree under test; cat's standard output must equal the content byte for byte. Non-trivial: the whole pipeline ran and the output was compared (sandbox/timing problems are counted as classes and not judged); distinct by case hash"
+const rule = "content of 1..320 000 bytes (thorough: up to ~9.6 MB, i.e. more than 1000 segments), biased to multiples of the 8000-byte segment size and of the tool's 8192-byte read buffer +-2, piped into `ndnd put <name>` in generated write sizes (1..100 000, cycled, optional pauses), retrieved by 1..3 `ndnd cat <name>` processes (sequentially or concurrently) through a real `ndnd fw run` forwarder process built from the tree under test; cat's standard output must equal the content byte for byte; in a twelfth of the cases the producer is then replaced by one publishing other content under the same name (a second version; the first stays in the forwarder's cache) and a last retrieval must deliver the new content if it happens after the 4 s freshness period of the version-discovery packet, and either version, whole, if it happens at once. Non-trivial: the whole pipeline ran and the output was compared (sandbox/timing problems are counted as classes and not judged); distinct by case hash"
 
 func TestC15Tools(t *testing.T) {
 	rec := evid.New("C15", "TestC15Tools", rule)
